@@ -1,6 +1,7 @@
 package mon
 
 import (
+	"bytes"
 	"encoding/hex"
 	"encoding/json"
 	"fmt"
@@ -366,6 +367,16 @@ func hostileAuthorities(x *c16World, rngSeed uint64) map[string]string {
 	}
 	if s, err := bech32.ConvertAndEncode("cosmos", chain.GovAddr()); err == nil {
 		out["gov-other-hrp"] = s
+	}
+	// valid addresses of another length that contain the governance address: 32 bytes ending in it, 32 bytes
+	// starting with it, and its first 19 bytes (code that compares after converting to a 20-byte type sees them equal)
+	for label, raw := range map[string][]byte{
+		"gov-as-32-byte-suffix": append(bytes.Repeat([]byte{0x5a}, 12), chain.GovAddr()...),
+		"gov-as-32-byte-prefix": append(append([]byte{}, chain.GovAddr()...), bytes.Repeat([]byte{0}, 12)...),
+		"gov-zero-padded-left":  append(make([]byte, 12), chain.GovAddr()...),
+		"gov-first-19-bytes":    chain.GovAddr()[:19],
+	} {
+		out[label] = sdk.AccAddress(raw).String()
 	}
 	for _, name := range []string{"erc20", "evm", "eth", "bsc", "tron", "crosschain", "distribution", "bonded_tokens_pool", "mint", "fee_collector", "transfer"} {
 		out["module-"+name] = chain.ModuleAddr(name).String()
